@@ -43,6 +43,7 @@ import (
 //   c14 par <thr> <client> <n> <nonce> <overlap|plain>   one request to n servers at once
 //        (SendProtobufParallelWithDecoder); overlap: a decoder that makes two replies overlap
 //   c14 all <thr> <client> <n> <path> <hex>   the same request to n servers one after the other (Client.SendToAll)
+//   c14 reg <ws|rest:<METHOD>:<min>:<max>> <sig>   a registration attempt with the function <sig> of c14reg.go
 //   c14 direct <path> <hex>   Service.ProcessClientRequest of the first server called directly (no websocket)
 //   c14 barrier
 //   c14 procs <n>      GOMAXPROCS of the (sub-)process running the server and the clients
@@ -688,6 +689,9 @@ func c14exec(c *h.Ctx, cs *h.Case) {
 				order = append(order, tk[2])
 			}
 			threads[tk[2]] = append(threads[tk[2]], c14job{i, tk})
+		case len(tk) == 4 && tk[0] == "c14" && tk[1] == "reg":
+			flush()
+			cs.Impl[i] = e.doReg(tk)
 		case len(tk) == 4 && tk[0] == "c14" && tk[1] == "direct":
 			flush()
 			cs.Impl[i] = e.doDirect(tk)
@@ -1419,6 +1423,22 @@ func c14genCases(c *h.Ctx, yield func(*h.Case)) {
 		emit(cs)
 	}
 
+	{
+		// what a registration accepts: every function of the table on the websocket API, and the REST
+		// checks in their order
+		cs := &h.Case{Class: "corpus:registration"}
+		for _, sg := range c14sigNames {
+			cs.Ops = append(cs.Ops, "c14 reg ws "+sg)
+		}
+		for _, sg := range c14sigNames {
+			cs.Ops = append(cs.Ops, "c14 reg rest:GET:3:3 "+sg)
+		}
+		cs.Ops = append(cs.Ops, "c14 reg rest:POST:3:4 ok", "c14 reg rest:PUT:3:3 okiface", "c14 reg rest:DELETE:3:3 ok", "c14 reg rest:POST:4:3 ok",
+			"c14 reg rest:POST:2:3 ok", "c14 reg rest:PATCH:5:2 notfunc", "c14 reg rest:POST:2:2 ret1", "c14 reg rest:POST:3:3 ret1",
+			"c14 reg rest:PUT:3:3 argval", "c14 reg rest:POST:3:3 get-two")
+		emit(cs)
+	}
+
 	n := c.Pick(140, 2500)
 	for it := 0; it < n && !c.TooManyFails(); it++ {
 		if it%2 == 0 {
@@ -1585,6 +1605,19 @@ func c14genCases(c *h.Ctx, yield func(*h.Case)) {
 				wsop(cs, thr, cl, path, hint)
 			}
 			g.narrow = false
+			emit(cs)
+		}
+		if it%10 == 3 {
+			cs = &h.Case{Class: "registration"}
+			for i, m := 0, 3+r.Intn(8); i < m; i++ {
+				api := "ws"
+				if r.Intn(3) != 0 {
+					api = fmt.Sprintf("rest:%s:%d:%d", []string{"GET", "GET", "POST", "PUT", "DELETE", "get"}[r.Intn(6)], 2+r.Intn(3), 2+r.Intn(4))
+				}
+				c.Count("reg:" + strings.Split(api, ":")[0])
+				cs.Ops = append(cs.Ops, "c14 reg "+api+" "+c14sigNames[r.Intn(len(c14sigNames))])
+			}
+			// the requests of the case's end (canaries) show that the attempts left the service alone
 			emit(cs)
 		}
 		if it%10 == 5 {
